@@ -3,6 +3,7 @@ import Treepath.Model.Fns
 import Treepath.Proofs.EvalLemmas
 import Treepath.Proofs.HasRefine
 import Treepath.Proofs.Work
+import Treepath.Proofs.Budget
 /- C04 — has, has_all, has_any, has_not: existential tests and boolean algebra -/
 namespace Treepath.C04
 
@@ -94,6 +95,15 @@ theorem machine_has_is_definition (ss : List (Step J)) (hq : Quiet ss) (hp : Pre
     (op : Option Fn) (fns : List Fn) (c : MNode J) :
     IsInfra (has cxJ ss op fns c).res ∨ (has cxJ ss op fns c).res = (hasS ss op fns c).res :=
   has_refines cxJ rfl rfl ss hq hp op fns c
+
+/-- … and outright, with the budget made explicit: if the nested search's definition needs
+fewer than `(budget - 3) / 6` examinations (and selects fewer values than the model's loop
+fuel), the library's `has` returns exactly what the definition says -/
+theorem machine_has_is_definition_exact (ss : List (Step J)) (hq : Quiet ss) (hp : PredsClean ss.toArray)
+    (hs : PredsStamped ss) (op : Option Fn) (fns : List Fn) (c : MNode J)
+    (hb : 6 * exams ss (.imag c) + 3 < Generated.loopBudget) (hf : (eval ss (.imag c)).length < cxJ.fuel) :
+    (has cxJ ss op fns c).res = (hasS ss op fns c).res :=
+  has_exact cxJ rfl rfl ss hq hp hs op fns c hb hf
 
 /-- for filter-free paths of supported steps no side condition is left -/
 theorem machine_has_is_definition_filterFree (ss : List (Step J))
